@@ -422,7 +422,10 @@ impl KotoVm {
                 packed_arg_count: 0,
             },
             function,
-        )?;
+        )
+        // The call failed before a frame was entered (e.g. a native function returned an error),
+        // so the registers that were prepared for the call need to be cleaned up here.
+        .inspect_err(|_| self.truncate_registers(result_register))?;
 
         let result = if self.call_stack.len() == old_frame_count {
             // If the call stack is the same size as before calling call_callable,
